@@ -21,7 +21,7 @@ RULE = ('makerandCIJ_und(n,K) n in {3,4} all K; makerandCIJ_dir(3,K) all K; make
         'distinct outputs; additionally makeringlatticeCIJ n=5..8 (every K), makerandCIJ_dir n=4,5, makerandCIJ_und n=5,6, makeevenCIJ n=8 '
         'over a fixed subset of 2n+2 structured orders of their (too large) permutation menus - exhaustive over the parameters only; '
         'and large sizes (makerandCIJ_und up to 1500 nodes, makerandCIJ_dir 1100, ring lattice 301, makeevenCIJ 128, makefractalCIJ 128) under the four '
-        'answer strategies of bctmc/structured.py (lowest / highest / spread / alternating answers)')
+        'answer strategies of bctmc/structured.py (lowest / highest / spread / alternating answers), incl. makeevenCIJ on 16 nodes for every K x cluster exponent 0..3 and on 32 nodes for every K x exponents 0, 2')
 ASSUMPTIONS = ['a uniform draw compared with a probability p is represented by the points 0.0 and 0.999999: both outcomes '
                'for 0<p<1, the only possible outcome for p<=0 or p>=1',
                'makerandCIJdegreesfixed may give up with BCTParamError (documented heuristic); only returned matrices are judged',
@@ -106,6 +106,10 @@ LARGE = [('makerandCIJ_und', (60, 100)), ('makerandCIJ_und', (300, 2000)), ('mak
          ('makeringlatticeCIJ', (100, 450)), ('makeringlatticeCIJ', (301, 1500)),
          ('makeevenCIJ', (64, 500, 3)), ('makeevenCIJ', (128, 3000, 2)),
          ('makefractalCIJ', (6, 2, 2)), ('makefractalCIJ', (7, 1.5, 3))]
+# makeevenCIJ on 16 nodes for EVERY K and cluster size exponent 0..3, on 32 nodes for every K and exponents 0, 2
+# (the count of connections may depend on K through rounding; the grid is exhaustive over the parameters)
+LARGE += [('makeevenCIJ', (16, K, sz)) for sz in (0, 1, 2, 3) for K in range(0, 241)]
+LARGE += [('makeevenCIJ', (32, K, sz)) for sz in (0, 2) for K in range(0, 993)]
 
 
 def work_large(fn, args):
@@ -143,8 +147,10 @@ def work_large(fn, args):
             if cnt != args[1]:
                 t.viol(fn, 'exactly_K_connections', case, observed=cnt, expected=args[1])
         elif fn == 'makeevenCIJ':
-            if cnt != args[1]:
-                t.viol(fn, 'exactly_K_connections', case, observed=cnt, expected=args[1])
+            skel = skeleton(args[0], args[2])
+            want = max(args[1], skel)      # K below the cluster skeleton is documented as infeasible (skeleton returned)
+            if cnt != want:
+                t.viol(fn, 'exactly_K_connections', case, observed=cnt, expected=want)
         elif fn == 'makefractalCIJ':
             if reported != cnt:
                 t.viol(fn, 'reported_count', case, observed=reported, expected=cnt)
@@ -166,7 +172,11 @@ def plan(ctx):
     units = [[c] for c in heavy]
     for k in range(0, len(light), 12):
         units.append(light[k:k + 12])
-    units += [[('__large__', c)] for c in LARGE]
+    big = [c for c in LARGE if not (c[0] == 'makeevenCIJ' and c[1][0] in (16, 32))]
+    grid = [c for c in LARGE if c not in big]
+    units += [[('__large__', c)] for c in big]
+    for k in range(0, len(grid), 120):
+        units.append([('__large__', c) for c in grid[k:k + 120]])
     return units
 
 
